@@ -558,13 +558,21 @@ impl<K: Kt> Session<K> {
                 let items: Vec<(K, Vec<u8>)> = kv.iter().map(|(k, v)| (K::from(keys[*k].clone()), v.bytes())).collect();
                 let ks: Vec<usize> = kv.iter().map(|x| x.0).collect();
                 self.note_batch(ctx, "put_from_iter", &ks, keys);
-                self.basic(at, &format!("put_from_iter({} pairs)", kv.len()), O_C14, (), |m| m.put_from_iter(items.into_iter()))?;
+                // the iterator handed over is of exact size, or one whose size hint has a lower bound of zero
+                // (filter), or one that under-reports (flat_map of singletons)
+                match rng_bits % 3 {
+                    0 => self.basic(at, &format!("put_from_iter({} pairs, exact-size iterator)", kv.len()), O_C14, (), |m| m.put_from_iter(items.into_iter()))?,
+                    1 => self.basic(at, &format!("put_from_iter({} pairs, filter iterator)", kv.len()), O_C14, (), |m| m.put_from_iter(items.into_iter().filter(|x| x.1.len() != usize::MAX)))?,
+                    _ => self.basic(at, &format!("put_from_iter({} pairs, flat_map iterator)", kv.len()), O_C14, (), |m| m.put_from_iter(items.into_iter().flat_map(|x| std::iter::once(x))))?,
+                }
                 for (k, v) in kv.iter() {
                     self.model.insert(keys[*k].clone(), v.bytes());
                 }
                 self.peak_live = self.peak_live.max(self.model.len());
                 self.updates_since_sync += 1;
                 self.verify_keys(at, &ks, keys, O_C14, "after put_from_iter")?;
+                let e = self.model.len() as u64;
+                self.basic(at, "len() after put_from_iter", O_C14, e, |m| m.len())?;
             }
             Op::Flush => self.basic(at, "flush()", O_C01, (), |m| m.flush())?,
             Op::SyncAll => self.basic(at, "sync_all()", O_C01, (), |m| m.sync_all())?,
@@ -592,6 +600,31 @@ impl<K: Kt> Session<K> {
                 self.updates_since_sync = 0;
                 if mon.full_compare_at_reopen {
                     self.full_compare(at, keys, O_C02, "after reopen", ctx)?;
+                }
+            }
+            Op::Hole(cfg, key_len, val_len) => {
+                self.close();
+                for (ext, len) in [("key", *key_len), ("val", *val_len)] {
+                    if *(&len) == 0 {
+                        continue;
+                    }
+                    let p = self.dir.join(format!("{}.{ext}", self.name));
+                    let cur = std::fs::metadata(&p).map(|m| m.len()).unwrap_or(0);
+                    if len > cur {
+                        let ok = std::fs::OpenOptions::new().write(true).open(&p).and_then(|f| f.set_len(len)).is_ok();
+                        if !ok {
+                            return Err(finding(&[], "harness", at, format!("cannot extend {} to {len} bytes", p.display())));
+                        }
+                        ctx.count("holes_made", 1);
+                        ctx.max("max_hole_end", len);
+                    }
+                }
+                if let Err(e) = self.open(cfg) {
+                    return Err(finding(O_C02, "reopen", at, format!("reopening after the files were extended failed: {e}")));
+                }
+                self.updates_since_sync = 0;
+                if mon.full_compare_at_reopen {
+                    self.full_compare(at, keys, O_C02, "after reopen (files extended)", ctx)?;
                 }
             }
             Op::Iter(f, n) => {
